@@ -2,6 +2,7 @@ import EbisimProofs.Lemmas.Newton
 import EbisimProofs.Lemmas.Comparison
 import EbisimProofs.Lemmas.Trapz
 import EbisimProofs.Lemmas.Consts
+import Mathlib.Analysis.SpecialFunctions.Gamma.Basic
 
 /-! # C13 — Boltzmann–Poisson solutions are self-consistent and conserve line density
 
@@ -1145,5 +1146,73 @@ theorem sor_exit_is_step (I : BPIn ℝ) (f0n : ℝ) : ∀ (fuel k : ℕ) (phi m1
     · cases f with
       | zero => simp only [sorLoop, Option.some.injEq] at ho; exact ⟨phi, ho.symm⟩
       | succ f' => exact ih _ _ _ _ _ o ho (by omega)
+
+/-! ## heat capacity in a wide harmonic well -/
+
+section Harmonic
+open MeasureTheory Set
+
+/-- moments of the Boltzmann weight in a harmonic well, in the variable `u = r²` (`r dr = du/2`; the factor ½ cancels in
+every ratio): `∫₀^∞ u^k e^{−βu} du = k!/β^{k+1}` for `k = 0, 1, 2` -/
+theorem harmonic_moments (β : ℝ) (hβ : 0 < β) :
+    (∫ u in Ioi (0:ℝ), Real.exp (-(β * u))) = 1 / β ∧
+    (∫ u in Ioi (0:ℝ), u * Real.exp (-(β * u))) = 1 / β ^ 2 ∧
+    (∫ u in Ioi (0:ℝ), u ^ 2 * Real.exp (-(β * u))) = 2 / β ^ 3 := by
+  have h1 := Real.integral_rpow_mul_exp_neg_mul_Ioi (a := 1) (r := β) one_pos hβ
+  have h2 := Real.integral_rpow_mul_exp_neg_mul_Ioi (a := 2) (r := β) two_pos hβ
+  have h3 := Real.integral_rpow_mul_exp_neg_mul_Ioi (a := 3) (r := β) (by norm_num) hβ
+  refine ⟨?_, ?_, ?_⟩
+  · have : (fun t : ℝ => t ^ ((1:ℝ) - 1) * Real.exp (-(β * t))) = fun t => Real.exp (-(β * t)) := by
+      funext t; simp
+    rw [this] at h1
+    rw [h1, Real.Gamma_one]; simp
+  · have : ∀ t ∈ Ioi (0:ℝ), t ^ ((2:ℝ) - 1) * Real.exp (-(β * t)) = t * Real.exp (-(β * t)) := by
+      intro t _; norm_num
+    rw [setIntegral_congr_fun measurableSet_Ioi this] at h2
+    have hG2 : Real.Gamma 2 = 1 := by
+      have := Real.Gamma_nat_eq_factorial 1
+      norm_num at this; simpa using this
+    rw [h2, hG2, Real.rpow_two]; field_simp
+  · have : ∀ t ∈ Ioi (0:ℝ), t ^ ((3:ℝ) - 1) * Real.exp (-(β * t)) = t ^ 2 * Real.exp (-(β * t)) := by
+      intro t ht
+      have : (3:ℝ) - 1 = 2 := by norm_num
+      rw [this, Real.rpow_two]
+    rw [setIntegral_congr_fun measurableSet_Ioi this] at h3
+    have hG : Real.Gamma 3 = 2 := by
+      have := Real.Gamma_nat_eq_factorial 2
+      norm_num at this; simpa using this
+    rw [h3, hG]
+    have : (1 / β) ^ (3:ℝ) = 1 / β ^ 3 := by
+      rw [show (3:ℝ) = ((3:ℕ):ℝ) by norm_num, Real.rpow_natCast]; field_simp
+    rw [this]; ring
+
+/-- **5/2 in a wide harmonic well**: with the trap potential energy `p = q a r² = κ u` of a harmonic well, temperature `kT > 0`
+and the three moments `A = ∫ p² w`, `B = ∫ p w`, `C = ∫ w` of the Boltzmann weight `w = e^{−p/kT}` taken over the whole well, the
+expression `heat_capacity` evaluates, `3/2 + (A/C − B²/C²)/kT²`, is exactly `5/2`. (`A, B, C` are the limits, for a grid that is
+fine and reaches far beyond the thermal radius, of the three trapezoid sums `a, b, c` in `Radial.heatCapacity`, written in the variable
+`u = r²`; how fast a finite grid approaches the limit is monitored.) -/
+theorem heat_capacity_harmonic_limit (κ kT : ℝ) (hκ : 0 < κ) (hT : 0 < kT) :
+    let A := ∫ u in Ioi (0:ℝ), (κ * u) ^ 2 * Real.exp (-(κ * u) / kT)
+    let B := ∫ u in Ioi (0:ℝ), (κ * u) * Real.exp (-(κ * u) / kT)
+    let C := ∫ u in Ioi (0:ℝ), Real.exp (-(κ * u) / kT)
+    3 / 2 + 1 / kT ^ 2 * (A / C - B ^ 2 / C ^ 2) = 5 / 2 := by
+  intro A B C
+  have hβ : 0 < κ / kT := div_pos hκ hT
+  obtain ⟨m0, m1, m2⟩ := harmonic_moments (κ / kT) hβ
+  have e : ∀ u : ℝ, -(κ * u) / kT = -(κ / kT * u) := fun u => by ring
+  have hC : C = kT / κ := by
+    show (∫ u in Ioi (0:ℝ), Real.exp (-(κ * u) / kT)) = _
+    simp_rw [e]; rw [m0]; field_simp
+  have hB : B = κ * (kT / κ) ^ 2 := by
+    show (∫ u in Ioi (0:ℝ), (κ * u) * Real.exp (-(κ * u) / kT)) = _
+    simp_rw [e, mul_assoc]; rw [integral_const_mul, m1]; field_simp
+  have hA : A = κ ^ 2 * (2 * (kT / κ) ^ 3) := by
+    show (∫ u in Ioi (0:ℝ), (κ * u) ^ 2 * Real.exp (-(κ * u) / kT)) = _
+    simp_rw [e, mul_pow, mul_assoc]; rw [integral_const_mul, m2]; field_simp
+  rw [hA, hB, hC]
+  field_simp
+  ring
+
+end Harmonic
 
 end C13
